@@ -90,6 +90,22 @@ def run(ctx):
             if dis <= 5:
                 ctx.broke("correspondence:info", f"`info {l}` python={a} model={b}")
     ctx.extra.setdefault("disagreements", {})["info"] = dis
+    # the answer for (bytes, address) must not depend on what was asked before: the same bytes queried again at other
+    # addresses of the same 64K page, in one process, against the model's answer for each address
+    hist = []
+    for c, a in zip(cases, outs["py"]):
+        if "br=" in a and not a.endswith("br=-") and len(hist) < (6000 if ctx.tier == "thorough" else 900):
+            base = c[1] & 0xFF0000
+            for off in (c[1] & 0xFFFF, ((c[1] & 0xFFFF) + 0x100) & 0xFFFF, ((c[1] & 0xFFFF) ^ 0x2040) & 0xFFFF):
+                hist.append(f"{c[0]} {base | off}")
+    if hist:
+        ho = corr.run_streams(ctx, hist, {"py": ("py", "info")}, sharded=False)["py"]
+        hm = corr.run_streams(ctx, hist, {"model": ("model", "info")})["model"]
+        for l, a, b in zip(hist, ho, hm):
+            ctx.evaluations += 1
+            if a != b and not (a.startswith("ERR") and b.startswith("ERR")):
+                ctx.report(["py", "instruction_info_depends_on_earlier_queries"], f"`info {l}` answered {a[:120]} after other queries in the same process; the analysis of these bytes at this address is {b[:120]}", {"case": "info " + l, "answer": a, "expected": b})
+        ctx.count("info_history_queries", len(hist))
     infos = outs["py"]
     lines = cpu.wire(cases)
     ex = corr.run_streams(ctx, lines, {"py": ("py", "exec1"), "model": ("model", "exec_py")})
